@@ -20,6 +20,8 @@ pub enum Variant {
     Provided { dict: u32 },
     /// 5-byte header, UseProvided(None), marker
     ShortHeaderMarker { dict: u32 },
+    /// .lzma, size in header, source hands over one byte at a time
+    KnownBytewise { dict: u32 },
     /// raw decoder, size known
     RawKnown { dict: u32 },
     /// raw decoder, marker
@@ -51,6 +53,13 @@ pub fn build(lc: u32, lp: u32, pb: u32, prog: &[Sym], var: Variant, model_dict: 
             rd: Rd::default(),
             sk: Sk::default(),
         },
+        Variant::KnownBytewise { dict } => Case::Dec {
+            fmt: Fmt::Lzma,
+            opts: Opts::default(),
+            input: Hex(enc::lzma_file(lc, lp, pb, dict, Some(n), &e.payload)),
+            rd: Rd { period: 1, ..Rd::default() },
+            sk: Sk::default(),
+        },
         Variant::Marker { dict } => Case::Dec {
             fmt: Fmt::Lzma,
             opts: Opts::default(),
@@ -80,7 +89,11 @@ pub fn build(lc: u32, lp: u32, pb: u32, prog: &[Sym], var: Variant, model_dict: 
 /// Fast execution of a built case: (verdict, output, consumed, input_len)
 pub fn exec(case: &Case) -> (V, Vec<u8>, usize, usize) {
     match case {
-        Case::Dec { fmt, opts, input, .. } => {
+        Case::Dec { fmt, opts, input, rd, sk } => {
+            if !rd.is_plain() || !sk.is_plain() {
+                let o = crate::cases::run_case(case);
+                return (o.v, o.out.0, o.consumed, input.0.len());
+            }
             let (v, o, c) = dec_plain(*fmt, opts, &input.0);
             (v, o, c, input.0.len())
         }
@@ -172,7 +185,7 @@ pub fn run(tier: Tier) -> i32 {
     // ~90 us, so the heavy settings get one level less
     let groups: Vec<(Vec<(u32, u32, u32)>, usize, usize)> = tier.pick(
         vec![(vec![(3, 0, 2), (0, 0, 0), (0, 4, 0), (4, 0, 4), (1, 2, 3)], 4, 3), (vec![(8, 4, 4)], 3, 2)],
-        vec![(vec![(3, 0, 2), (0, 0, 0), (0, 4, 0), (4, 0, 4), (1, 2, 3), (2, 2, 1)], 6, 4), (vec![(8, 0, 0)], 5, 4), (vec![(8, 4, 4)], 3, 2)],
+        vec![(vec![(3, 0, 2), (0, 0, 0), (0, 4, 0), (4, 0, 4), (1, 2, 3), (2, 2, 1)], 6, 4), (vec![(3, 0, 2)], 7, 5), (vec![(8, 0, 0)], 5, 4), (vec![(8, 4, 4)], 3, 2)],
     );
     let sigma = automaton_alphabet(seed);
     let setups: Vec<(&str, Vec<Sym>)> = vec![
@@ -206,6 +219,7 @@ pub fn run(tier: Tier) -> i32 {
                 Variant::ShortHeaderMarker { dict: 4096 },
                 Variant::RawKnown { dict: maxd },
                 Variant::RawMarker { dict: maxd + 1 },
+                Variant::KnownBytewise { dict: 4097 },
             ];
             let mut first = true;
             for var in variants {
@@ -227,7 +241,7 @@ pub fn run(tier: Tier) -> i32 {
                 }
             }
         });
-        ctx.scope_done(&name, total * nset, t0, &format!("{} programs x {} lc/lp/pb x 6 presentations", total, nset));
+        ctx.scope_done(&name, total * nset, t0, &format!("{} programs x {} lc/lp/pb x 7 presentations", total, nset));
     }
     }
 
@@ -301,7 +315,7 @@ pub fn run(tier: Tier) -> i32 {
 
     // ------------------------------------------------------------------ scope 3a: wrap scope on tiny dictionaries (raw decoder)
     {
-        let nmax = tier.pick(6usize, 8usize);
+        let nmax = tier.pick(6usize, 10usize);
         let name = format!("wrap/raw/dict=1..{}", nmax);
         if ctx.may_start(&name) {
             let t0 = Instant::now();
@@ -369,7 +383,7 @@ pub fn run(tier: Tier) -> i32 {
         let name = "wrap/public/dict=4096";
         if ctx.may_start(name) {
             let t0 = Instant::now();
-            let jmax = tier.pick(12usize, 20usize);
+            let jmax = tier.pick(12usize, 30usize);
             let mut items = Vec::new();
             for j in 0..=jmax {
                 for l in 2..=(jmax + 2) {
